@@ -52,7 +52,7 @@ func GenAType(t *rapid.T, d int, classes []string) *AType {
 			if m.Kind == "union" {
 				m = &AType{Kind: "paren", Elems: []*AType{m}}
 			}
-			if m.Kind == "fun" && len(m.Returns) > 0 && i < n-1 {
+			if funWithReturns(m) && i < n-1 {
 				// the return list of a fun extends as far as possible: parenthesise
 				m = &AType{Kind: "paren", Elems: []*AType{m}}
 			}
@@ -66,17 +66,26 @@ func GenAType(t *rapid.T, d int, classes []string) *AType {
 		}
 		return &AType{Kind: "array", Elems: []*AType{e}}
 	case 7:
-		return &AType{Kind: "table", Elems: []*AType{GenAType(t, d-1, classes), GenAType(t, d-1, classes)}}
+		k := GenAType(t, d-1, classes)
+		if funWithReturns(k) {
+			// the return list of a fun extends as far as possible: as a table key it needs parentheses
+			k = &AType{Kind: "paren", Elems: []*AType{k}}
+		}
+		return &AType{Kind: "table", Elems: []*AType{k, GenAType(t, d-1, classes)}}
 	case 8:
 		f := &AType{Kind: "fun"}
 		np := rapid.IntRange(0, 3).Draw(t, "funParams")
 		for i := 0; i < np; i++ {
-			f.Params = append(f.Params, AParam{Name: fmt.Sprintf("p%d", i+1), Opt: rapid.IntRange(0, 4).Draw(t, "opt") == 0, Type: GenAType(t, d-1, classes)})
+			pt := GenAType(t, d-1, classes)
+			if funWithReturns(pt) && i < np-1 {
+				pt = &AType{Kind: "paren", Elems: []*AType{pt}}
+			}
+			f.Params = append(f.Params, AParam{Name: fmt.Sprintf("p%d", i+1), Opt: rapid.IntRange(0, 4).Draw(t, "opt") == 0, Type: pt})
 		}
 		nr := rapid.IntRange(0, 2).Draw(t, "funReturns")
 		for i := 0; i < nr; i++ {
 			r := GenAType(t, d-1, classes)
-			if r.Kind == "fun" && len(r.Returns) > 0 && i < nr-1 {
+			if funWithReturns(r) && i < nr-1 {
 				r = &AType{Kind: "paren", Elems: []*AType{r}}
 			}
 			f.Returns = append(f.Returns, r)
@@ -85,6 +94,23 @@ func GenAType(t *rapid.T, d int, classes []string) *AType {
 	default:
 		return &AType{Kind: "paren", Elems: []*AType{GenAType(t, d-1, classes)}}
 	}
+}
+
+// funWithReturns: a fun type with a return list, or a union ending in one (its return list would
+// swallow a following comma).
+func funWithReturns(a *AType) bool {
+	switch a.Kind {
+	case "fun":
+		if len(a.Returns) == 0 {
+			return false
+		}
+		return true
+	case "union":
+		return funWithReturns(a.Elems[len(a.Elems)-1])
+	case "array", "name", "table", "paren":
+		return false
+	}
+	return false
 }
 
 // String prints the type in the documented syntax.
@@ -278,6 +304,11 @@ var annotComments = []string{"", "", " @note", " @说明 文字", " @a comment w
 
 // GenAnnotLine draws one annotation line of the given kind ("" = any kind).
 func GenAnnotLine(t *rapid.T, kind string, depth int, classes []string) AnnotLine {
+	return GenAnnotLineN(t, kind, depth, classes, -1)
+}
+
+// GenAnnotLineN is GenAnnotLine with a unique number for the names a line declares (class, alias).
+func GenAnnotLineN(t *rapid.T, kind string, depth int, classes []string, uniq int) AnnotLine {
 	kinds := []string{"type", "class", "field", "param", "return", "alias", "generic", "overload", "vararg"}
 	if kind == "" {
 		kind = rapid.SampledFrom(kinds).Draw(t, "akind")
@@ -290,7 +321,7 @@ func GenAnnotLine(t *rapid.T, kind string, depth int, classes []string) AnnotLin
 		var ps []string
 		for i := 0; i < n; i++ {
 			ty := GenAType(t, depth, classes)
-			if ty.Kind == "fun" && len(ty.Returns) > 0 && i < n-1 {
+			if funWithReturns(ty) && i < n-1 {
 				ty = &AType{Kind: "paren", Elems: []*AType{ty}}
 			}
 			l.Types = append(l.Types, ty)
@@ -299,6 +330,9 @@ func GenAnnotLine(t *rapid.T, kind string, depth int, classes []string) AnnotLin
 		l.Text = "@" + kind + " " + strings.Join(ps, ", ") + cm
 	case "class":
 		l.Name = fmt.Sprintf("Cls%d", rapid.IntRange(1, 99).Draw(t, "clsNo"))
+		if uniq >= 0 {
+			l.Name = fmt.Sprintf("NewCls%d", uniq)
+		}
 		np := rapid.IntRange(0, 3).Draw(t, "nparents")
 		s := "@class " + l.Name
 		for i := 0; i < np && len(classes) > 0; i++ {
@@ -327,6 +361,9 @@ func GenAnnotLine(t *rapid.T, kind string, depth int, classes []string) AnnotLin
 		l.Text = "@param " + l.Name + opt + " " + ty.String() + cm
 	case "alias":
 		l.Name = fmt.Sprintf("Alias%d", rapid.IntRange(1, 9).Draw(t, "aliasNo"))
+		if uniq >= 0 {
+			l.Name = fmt.Sprintf("NewAlias%d", uniq)
+		}
 		ty := GenAType(t, depth, classes)
 		l.Types = []*AType{ty}
 		l.Text = "@alias " + l.Name + " " + ty.String() + cm
